@@ -23,6 +23,16 @@ class BaseBoom(BaseException):
     pass
 
 
+class FalsyBoom(Exception):
+    """an exception instance that is falsy (e.g. an aggregate error with no sub-errors)"""
+
+    def __bool__(self):
+        return False
+
+    def __len__(self):
+        return 0
+
+
 def gen_graph(rng, maxn=9):
     """Random DAG (ints, topologically numbered then relabelled) with parallel edges. Returns (nodes, edges) with
     edges as (u, v, keykind)."""
@@ -308,7 +318,7 @@ class EngineCampaign:
         def fn(node):
             if node in failing:
                 e = {"Exception": Boom, "BaseException": BaseBoom, "KeyboardInterrupt": KeyboardInterrupt,
-                     "SystemExit": SystemExit}[exc_kind]("fail %r" % (node,))
+                     "SystemExit": SystemExit, "Falsy": FalsyBoom}[exc_kind]("fail %r" % (node,))
                 exc_objs[node] = e
                 raise e
         run = detsched.Run(self.rfg, self.sites, chooser, pause_in_fn=pause)
@@ -319,7 +329,13 @@ class EngineCampaign:
         for prop, key, what in monitors(self.ctx, None, run, nodes, edges, workers, max_errors, failing, exc_objs, outcome, case):
             self.found.append((prop, key, what, dict(case, events=[repr(e) for e in run.events[:400]])))
         if outcome[0] != "deadlock":
-            ch, exp = to_choices(run, nodes, edges, self.rfg.DONE)
+            try:
+                ch, exp = to_choices(run, nodes, edges, self.rfg.DONE)
+            except Exception as e:      # e.g. calls executed on the coordinating thread: no model-level trace exists
+                self.ctx.broke("the engine's events cannot be mapped to Engine.v's steps (%s: %s)" % (type(e).__name__, e),
+                               {"case": {k: case[k] for k in ("nodes", "edges", "workers", "max_errors", "scheduler", "failing", "outcome")},
+                                "events": [repr(x) for x in run.events[:60]]})
+                return run, outcome
             rc = {"returned": 1, "raised": 2, "interrupted": 3}[outcome[0]]
             rn = getattr(outcome[1], "node", 0) if outcome[0] == "raised" else 0
             self.model_cases.append((case, ch, exp, rc, rn if isinstance(rn, int) else 0, run))
@@ -376,7 +392,7 @@ def campaign(ctx, props):
         scheduler = rng.choice(["default", "random", "cheap", None])
         nf = rng.choice([0, 0, 1, 1, 2, 3])
         failing = rng.sample(nodes, min(nf, n))
-        exc_kind = rng.choice(["Exception", "Exception", "BaseException", "KeyboardInterrupt", "SystemExit"])
+        exc_kind = rng.choice(["Exception", "Exception", "BaseException", "KeyboardInterrupt", "SystemExit", "Falsy"])
         multi = sum(1 for v in nodes if len({u for (u, w, _) in edges if w == v}) >= 2)
         ctx.count("family", fam)
         ctx.count("nodes", n)
@@ -424,7 +440,8 @@ def targeted(ctx, camp):
         for workers in (1, 2, 3):
             for exc_kind, failing, max_errors in (("Exception", [], 0), ("BaseException", [nodes[0]], 0),
                                                   ("SystemExit", [nodes[0]], 1), ("KeyboardInterrupt", [nodes[1]], None),
-                                                  ("Exception", [nodes[1]], 2), ("Exception", nodes[:2], 1)):
+                                                  ("Exception", [nodes[1]], 2), ("Exception", nodes[:2], 1),
+                                                  ("Falsy", [nodes[0]], None), ("Exception", [nodes[0]], None)):
                 for si in range(ctx.n(2, 6)):
                     chooser = detsched.random_chooser(rng, rng.choice([0.05, 0.3, 0.6])) if si % 2 == 0 else \
                         detsched.pct_chooser(rng, depth=3, horizon=600)
